@@ -19,7 +19,7 @@ m = {
     },
     "engines": [{
         "name": "harness", "path": "/verif/harness", "serves_properties": sorted(CHECKS.keys()),
-        "kind_free_text": "Go property-based testing harness (pgregory.net/rapid v1.3.0; native go fuzz targets in the thorough tier): own block driver over the real provider/consumer apps, generated action histories, per-property oracles, sharded over 16 processes by /verif/bin/check",
+        "kind_free_text": "Go property-based testing harness (pgregory.net/rapid v1.3.0, state-machine mode for histories; bounded-exhaustive enumeration for the pure C04 predicate): own block driver over the real provider/consumer apps, generated action histories, per-property oracles, sharded over 16 processes by /verif/bin/check",
     }],
     "checks": [],
     "notes": "see /verif/DESIGN.md; known findings in /verif/known_findings.json",
